@@ -2,13 +2,13 @@ HOOKS = {
     "guard": "OSMIUM_VERIF_HOOKS",
     "enable": "harnesses are compiled from /repo's working tree with -I/repo/include -DOSMIUM_VERIF_HOOKS (header-only library)",
     "baseline_off_cmd": "cmake --build /repo/_build && ctest --test-dir /repo/_build -j8 --timeout 900",
-    "source_commits": ["6ec57f2", "0c60619"],
+    "source_commits": ["6ec57f2", "0c60619", "9e3eb93", "6fc245f", "1884519", "bdf7d6e", "156ce09"],
     "add_only": True,
 }
 ENGINES = [
-    {"name": "benum", "path": "engine/benum", "serves_properties": ["C13", "C16", "C17"],
+    {"name": "benum", "path": "engine/benum", "serves_properties": ["C13", "C14", "C16", "C17", "C18", "C20"],
      "kind_free_text": "bounded exhaustive enumeration runtime: rank<->case bijections, 16-way sharding, fork isolation with progress cell, line protocol to the driver"},
-    {"name": "vsched", "path": "engine/vsched", "serves_properties": ["C19"],
+    {"name": "vsched", "path": "engine/vsched", "serves_properties": ["C05", "C07", "C19"],
      "kind_free_text": "cooperative scheduler by link-time interposition of pthread mutex/cond/create/join, futex syscall and clock_gettime + stateless DFS explorer with iterative deviation bounding, 16 forked workers sharing a work stack, determinism re-runs, deadlock/livelock/hang detection, replay of recorded choice sequences"},
     {"name": "driver", "path": "engine/driver", "serves_properties": ["C13"],
      "kind_free_text": "bin/check: builds harnesses from /repo's working tree (content-hash cache), runs tiers under a deadline, replays violations, applies known_findings.txt, writes evidence"},
@@ -17,6 +17,36 @@ NOTES = ("All checks decide by exhaustive enumeration inside stated bounds (see 
          "failed (build or harness error) and is not a verdict.")
 NOT_APPLICABLE = {}
 CHECKS = {
+    "C20": {
+        "engine": "benum", "level": "exploration",
+        "technique": "exhaustive enumeration of item sequences x handler lists (template instantiations over 6-16 handler kinds, lengths 1..3|4) x entry points, and of all sorted version histories x buffer splits for the diff iterator, against a callback-sequence model",
+        "text": "All item sequences of length <= 3 over all item types (incl. removed items) are applied through every entry point to every handler list of length 1..3 (thorough 4) and the logged callback sequence is compared with the model; "
+                "every sorted history of <= 3 objects x 1..3 versions through DiffIterator / apply_diff with every split of the data into buffers (ASan, fork isolated).",
+        "note": "Whether ChainHandler/DynamicHandler forward osm_object and sub-item callbacks to wrapped handlers is left open (counted); apply() over select<ConcreteType> ranges does not compile and is outside the space.",
+    },
+    "C05": {
+        "engine": "vsched", "level": "model_checking",
+        "technique": "stateless model checking of the real Reader pipeline (read thread, parser thread, pool workers, consumer) under a controlled scheduler: delay-bounded and preemption-bounded exhaustive schedule exploration x configuration product",
+        "text": "The real Reader reads 11-object OPL/XML/PBF files delivered in 64-byte pieces into tiny parser buffers under every schedule with at most k deviations (k iterated 0,1,2(,3)) for a covering set of "
+                "pool sizes, queue sizes, entity masks, buffers_type, read_meta and PBF pool on/off, plus the configuration product (all 16 masks with every format) at bound 0; the delivered object sequence is compared "
+                "with the abstract object list on every complete execution and read() after end of data must throw.",
+        "note": "Sequentially consistent scheduler, no spurious wake-ups; o5m is not part of this harness (no independent multi-block o5m source yet); schedules beyond the completed deviation bound and inputs other than the fixed 11-object data set are not covered.",
+    },
+    "C07": {
+        "engine": "vsched", "level": "model_checking",
+        "technique": "stateless model checking of the real Reader pipeline under a controlled scheduler, crossed with an exhaustive enumeration of consumer stop points and fault positions (fault-injecting decompressor, corrupted/truncated files)",
+        "text": "Every pair of (consumer script: header yes/no x 0/1/2/all reads x close/destructor) and (fault: j-th decompressor read throws for every j, close throws, object n corrupt, truncation at every boundary / inside a block) "
+                "runs on the real Reader for OPL, XML and PBF at deviation bound 0, and four scripts x every fault under every schedule with <= 1 (quick) | <= 2 (thorough) deviations; termination, thread and descriptor leaks, "
+                "error reporting, no data after an error, no input read after close() and prefix delivery are checked on every execution.",
+        "note": "Faults are injected at the decompressor seam and in the file bytes, not inside zlib/bzip2; sequentially consistent scheduler; a parser whose constructor throws is outside the enumerated fault set.",
+    },
+    "C14": {
+        "engine": "benum", "level": "exploration",
+        "technique": "exhaustive enumeration of every Unicode scalar value, every short sequence over a structural alphabet and every byte string of length <= 4 (guard page / ASan) through the real escape functions and parsers",
+        "text": "All 1 112 063 scalar values and all sequences up to length 4|5 over 22 structural symbols are escaped by the OPL and XML writers' functions and parsed back with opl_parse_string / expat; all byte strings of length 1-3 "
+                "(and length 4 over a class-boundary alphabet; thorough: all 255^4) are escaped with the terminating NUL as the last readable byte (ASan and PROT_NONE guard page) - complete inside those spaces.",
+        "note": "XML is parsed with expat directly (the library's own XML reader is not in the loop); strings longer than the enumerated lengths are covered only by deterministic families.",
+    },
     "C16": {
         "engine": "benum", "level": "exploration",
         "technique": "exhaustive enumeration of all pairs/triples of a boundary-heavy object grid and of all short (type,id) streams against a lexicographic-key reference",
@@ -31,6 +61,13 @@ CHECKS = {
         "text": "Every node list up to length 5|7 over {A,B,C,undefined,invalid} and every area over a ring alphabet is exported through every factory (WKB, EWKB, hex, WKT, EWKT, GeoJSON) x unique/all x forward/backward x identity/Mercator "
                 "and decoded by the harness's own readers; geometry, counts and cross-format agreement are compared with a reference model on each case; number text is compared with an exact 128-bit decimal reference for every precision 0..17 under ASan.",
         "note": "Trusts the harness's decoders and the library's lonlat_to_mercator values (C18's subject); structure sweeps use precision 7 and 3, the precision axis is covered by the separate number sweep.",
+    },
+    "C18": {
+        "engine": "benum", "level": "exploration",
+        "technique": "exhaustive sweep of every fixed-point latitude (thorough: all 1.8e9, consecutive pairs) and dense longitude/boundary grids x zoom 0..30 through the real projection and tile functions",
+        "text": "Every fixed-point latitude in [-90,90] (thorough) / every 37th plus +-10^4 steps around all special values (quick) is pushed through lat_to_y, lat_to_y_with_tan, the round trip and Tile for every zoom 0..30; "
+                "accuracy (1 cm, quarter step), strict monotonicity between consecutive values, round trip, tile range, monotonicity and nesting are checked on every value.",
+        "note": "The canonical formula is the library's own lat_to_y_with_tan as the property states (anchored additionally to a long-double spherical Mercator); longitudes are enumerated on a dense grid, not exhaustively (x is linear in lon).",
     },
     "C19": {
         "engine": "vsched", "level": "model_checking",
